@@ -164,7 +164,19 @@ func (r *Run) initPackage(path string) bool {
 	if path == r.Module || strings.HasPrefix(path, r.Module+"/") {
 		return true
 	}
-	return initAllow[path]
+	if v, ok := initAllow[path]; ok {
+		return v
+	}
+	// third-party dependencies (first path element has a dot) are initialised
+	// like the module itself unless they belong to the outside-the-model set
+	if k := strings.Index(path, "/"); k > 0 && strings.Contains(path[:k], ".") {
+		for _, pre := range []string{"github.com/aclements/go-moremath"} {
+			if strings.HasPrefix(path, pre) {
+				return true
+			}
+		}
+	}
+	return false
 }
 
 func (r *Run) noteStub(s string) {
